@@ -10,19 +10,25 @@ LitToks == [ IntValue |-> IntToks, FloatValue |-> FloatFinite \cup {"fLITINF"}, 
 Cells == {[s |-> s, dir |-> "out", k |-> "", t |-> t] : s \in Scalars5, t \in Tokens}
          \cup {[s |-> s, dir |-> "in", k |-> "", t |-> t] : s \in Scalars5, t \in Tokens}
          \cup UNION {{[s |-> s, dir |-> "lit", k |-> k, t |-> t] : s \in Scalars5, t \in LitToks[k]} : k \in LitKinds}
-Init == cell \in Cells
+DateCells == {[s |-> s, dir |-> "out", k |-> "", t |-> t] : s \in DateScalars, t \in {DTok(x) : x \in DateScalars} \cup {"sTXT", "iS", "LIST"}}
+             \cup {[s |-> s, dir |-> "in", k |-> "", t |-> t] : s \in DateScalars, t \in DateToks \ {DTok(x) : x \in DateScalars}}
+             \cup {[s |-> s, dir |-> "lit", k |-> "StringValue", t |-> t] : s \in DateScalars, t \in {STok(x) : x \in DateScalars} \cup {"sTXT", "sDATEBAD"}}
+             \cup {[s |-> s, dir |-> "lit", k |-> "IntValue", t |-> "iS"] : s \in DateScalars}
+Init == cell \in Cells \cup DateCells
 Next == UNCHANGED cell
 Spec == Init /\ [][Next]_cell
 
-Allowed(c) == IF c.dir = "out" THEN Out(c.s, c.t) ELSE IF c.dir = "in" THEN In(c.s, c.t) ELSE LitC(c.s, [k |-> c.k, t |-> c.t])
+Allowed(c) == IF c.s \in DateScalars THEN (IF c.dir = "out" THEN OutDate(c.s, c.t) ELSE IF c.dir = "in" THEN InDate(c.s, c.t) ELSE LitDate(c.s, [k |-> c.k, t |-> c.t]))
+              ELSE IF c.dir = "out" THEN Out(c.s, c.t) ELSE IF c.dir = "in" THEN In(c.s, c.t) ELSE LitC(c.s, [k |-> c.k, t |-> c.t])
 
-Laws == LawWire /\ LawInputKinds /\ LawInputAccepts /\ LawLitVar /\ LawIdem /\ LawTotal
+Laws == LawDates /\ LawWire /\ LawInputKinds /\ LawInputAccepts /\ LawLitVar /\ LawIdem /\ LawTotal
 ASSUME LawWire
 ASSUME LawInputKinds
 ASSUME LawInputAccepts
 ASSUME LawLitVar
 ASSUME LawIdem
 ASSUME LawTotal
+ASSUME LawDates
 LawsHold == Laws
 Emit == PrintT(ToJson([kind |-> "cell", s |-> cell.s, dir |-> cell.dir, k |-> cell.k, t |-> cell.t, allowed |-> Allowed(cell)]))
 =============================================================================
